@@ -1,5 +1,6 @@
 SPECIFICATION Spec
-CONSTANT MaxLen = 2
+CONSTANT MaxLen1 = 2
+CONSTANT MaxLen2 = 2
 CONSTANT MaxIsoNodes = 6
 CHECK_DEADLOCK FALSE
 INVARIANT StrictLazyAgree
